@@ -10,8 +10,8 @@ use serde_json::{json, Value};
 
 pub const MAX_TEXT: usize = 4096;
 pub const MAX_NESTING: usize = 200;
-pub const MAX_REP_PRODUCT: u64 = 4096;
-pub const MAX_UNROLLED_BYTES: u64 = 262_144;
+pub const MAX_REP_PRODUCT: u64 = 128;
+pub const MAX_UNROLLED_BYTES: u64 = 65_536;
 
 /// Conservative size filter ("repetition counts of bounded size"): the product of all numbers
 /// that appear inside `{...}` repetition suffixes must stay <= MAX_REP_PRODUCT.
@@ -34,52 +34,123 @@ pub fn within_bounds(text: &str) -> bool {
     if maxd > MAX_NESTING {
         return false;
     }
-    // numbers between '{' and '}' where the braces contain only digits, commas, blanks, comments
+    let (counts, pluses) = unroll_chain(text);
+    // unrolling copies the repeated expression: bound the size of the unrolled grammar, not only the counts
+    // (a 2 KiB expression repeated 4096 times is gigabytes of AST); stacked `+` (each doubles) beyond 14 levels is
+    // the recorded finding D23 and is excluded by construction
+    counts <= MAX_REP_PRODUCT && counts.saturating_mul(text.len() as u64) <= MAX_UNROLLED_BYTES && pluses <= MAX_STACKED_PLUS
+}
+
+pub const MAX_STACKED_PLUS: u32 = 14;
+/// rendered size of the optimized rules per byte of text and unit of repetition count (measured: <= 6)
+pub const SIZE_PER_BYTE: usize = 64;
+
+/// Along the deepest nesting chain of postfix operators: (product of the explicit repetition counts, number of `+`).
+/// Textual: strings, character literals and comments are skipped, parentheses nest, a postfix operator applies to
+/// the operand or group just closed. `e{n,m}` counts max(n,m) (numbers beyond u32 are rejected by the reader).
+pub fn unroll_chain(text: &str) -> (u64, u32) {
     let b = text.as_bytes();
-    let mut prod: u64 = 1;
+    // per open group: best (counts, pluses) seen among its operands
+    let mut stack: Vec<(u64, u32)> = vec![(1, 0)];
+    let mut cur: (u64, u32) = (1, 0); // factor of the operand just completed
+    let better = |a: (u64, u32), c: (u64, u32)| -> (u64, u32) { (a.0.max(c.0), a.1.max(c.1)) };
     let mut i = 0;
     while i < b.len() {
-        if b[i] == b'{' {
-            let mut j = i + 1;
-            let mut num: u64 = 0;
-            let mut have = false;
-            let mut nums: Vec<u64> = vec![];
-            let mut ok = true;
-            while j < b.len() && b[j] != b'}' {
-                let c = b[j];
-                if c.is_ascii_digit() {
-                    num = num.saturating_mul(10).saturating_add((c - b'0') as u64);
-                    have = true;
-                } else {
-                    if have {
-                        nums.push(num);
-                        num = 0;
-                        have = false;
+        let c = b[i];
+        match c {
+            b'"' | b'\'' => {
+                // literal: skip to the closing quote (escapes skip one byte)
+                let q = c;
+                i += 1;
+                while i < b.len() && b[i] != q {
+                    if b[i] == b'\\' {
+                        i += 1;
                     }
-                    if !(c == b',' || c == b' ' || c == b'\t' || c == b'\n' || c == b'\r') {
-                        ok = false;
-                        break;
-                    }
+                    i += 1;
                 }
-                j += 1;
+                let top = stack.last_mut().unwrap();
+                *top = better(*top, cur);
+                cur = (1, 0);
             }
-            if have {
-                nums.push(num);
+            b'/' if b.get(i + 1) == Some(&b'/') => {
+                while i < b.len() && b[i] != b'\n' {
+                    i += 1;
+                }
             }
-            if ok && j < b.len() && !nums.is_empty() {
-                // numbers that do not fit in u32 are rejected by the reader before any unrolling
-                let m = nums.iter().copied().filter(|n| *n <= u32::MAX as u64).max().unwrap_or(1).max(1);
-                prod = prod.saturating_mul(m);
-                // unrolling copies the repeated expression: bound the size of the unrolled grammar,
-                // not only the counts (a 2 KiB expression repeated 4096 times is gigabytes of AST)
-                if prod > MAX_REP_PRODUCT || prod.saturating_mul(text.len() as u64) > MAX_UNROLLED_BYTES {
-                    return false;
+            b'/' if b.get(i + 1) == Some(&b'*') => {
+                i += 2;
+                while i + 1 < b.len() && !(b[i] == b'*' && b[i + 1] == b'/') {
+                    i += 1;
+                }
+                i += 1;
+            }
+            b'(' => {
+                let top = stack.last_mut().unwrap();
+                *top = better(*top, cur);
+                cur = (1, 0);
+                stack.push((1, 0));
+            }
+            b')' => {
+                let inner = better(stack.pop().unwrap_or((1, 0)), cur);
+                if stack.is_empty() {
+                    stack.push((1, 0));
+                }
+                cur = inner;
+            }
+            b'+' => cur.1 += 1,
+            b'*' | b'?' => {}
+            b'{' => {
+                // repetition suffix if the braces hold only digits, commas and blanks; otherwise a rule body
+                let mut j = i + 1;
+                let mut nums: Vec<u64> = vec![];
+                let mut num: Option<u64> = None;
+                let mut ok = true;
+                while j < b.len() && b[j] != b'}' {
+                    match b[j] {
+                        d if d.is_ascii_digit() => num = Some(num.unwrap_or(0).saturating_mul(10).saturating_add((d - b'0') as u64)),
+                        b',' | b' ' | b'\t' | b'\n' | b'\r' => {
+                            if let Some(n) = num.take() {
+                                nums.push(n);
+                            }
+                        }
+                        _ => {
+                            ok = false;
+                            break;
+                        }
+                    }
+                    j += 1;
+                }
+                if let Some(n) = num {
+                    nums.push(n);
+                }
+                if ok && j < b.len() && !nums.is_empty() {
+                    let m = nums.iter().copied().filter(|n| *n <= u32::MAX as u64).max().unwrap_or(1).max(1);
+                    cur.0 = cur.0.saturating_mul(m);
+                    i = j;
+                } else {
+                    // a rule body opens: treat like a group that is never closed by ')'
+                    let top = stack.last_mut().unwrap();
+                    *top = better(*top, cur);
+                    cur = (1, 0);
+                }
+            }
+            c if c.is_ascii_whitespace() => {}
+            _ => {
+                // start of another operand / operator: fold the finished operand into its group
+                if !(c.is_ascii_alphanumeric() || c == b'_') || cur != (1, 0) {
+                    let top = stack.last_mut().unwrap();
+                    *top = better(*top, cur);
+                    cur = (1, 0);
                 }
             }
         }
         i += 1;
     }
-    true
+    let mut best = cur;
+    for s in stack {
+        best = better(best, s);
+    }
+    best
 }
 
 pub const CALLS_PER_BYTE: usize = 200;
@@ -148,8 +219,14 @@ pub fn check_text(ctx: &mut Ctx, text: &str, origin: &str) -> Result<(), Fail> {
         match optimized {
             Ok((builtins, rules)) => {
                 let _ = builtins.len();
+                let mut rendered = 0usize;
                 for r in &rules {
-                    let _ = format!("{} {:?} {}", r.name, r.ty, r.expr);
+                    rendered += format!("{} {:?} {}", r.name, r.ty, r.expr).len();
+                }
+                // size of what the optimizer returns, relative to the text and the repetition counts it spells out
+                let budget = SIZE_PER_BYTE * (text.len() + CALLS_SLACK) * unroll_chain(text).0 as usize;
+                if rendered > budget {
+                    return Err(format!("SIZE-BUDGET the optimized rules render to {rendered} bytes, more than {SIZE_PER_BYTE}*(len+{CALLS_SLACK})*counts = {budget}"));
                 }
                 Ok((reached, rules.len()))
             }
@@ -205,6 +282,12 @@ pub fn check_text(ctx: &mut Ctx, text: &str, origin: &str) -> Result<(), Fail> {
                 "other"
             };
             Err(Fail::new(format!("c09:panic:{what}"), format!("the front-end panicked on this text ({origin}):\n{text}\npanic: {p}"), case))
+        }
+        Ok(Err(b)) if b.starts_with("SIZE-BUDGET") => {
+            // attribution: stacked `+` operators (each level doubles the expression)
+            let sig = if unroll_chain(text).1 >= 2 { "c09:optimized-size-budget-exceeded:stacked-plus" } else { "c09:optimized-size-budget-exceeded" };
+            ctx.class(&format!("{origin}:{sig}"));
+            Err(Fail::new(sig, format!("text ({origin}):\n{text}\n{b}"), case))
         }
         Ok(Err(b)) => Err(Fail::new("c09:bad-error", format!("text ({origin}):\n{text}\n{b}"), case)),
         Ok(Ok((reached, n))) => {
@@ -481,11 +564,27 @@ pub fn run(ctx: &mut Ctx) {
     });
     ctx.run_prop(n / 128, 6, strat, |ctx, t| check_text(ctx, t, "reference-lattice"));
     lap(ctx, "reference-lattice");
+    // (f) postfix towers: one operand under 1..20 stacked postfix operators, flat (`"a"+*?{2}`) or parenthesised
+    // level by level, optionally as one element of a sequence
+    const POSTFIX: [&str; 8] = ["+", "+", "*", "?", "{2}", "{1,2}", "{,2}", "{2,}"];
+    const OPERANDS: [&str; 5] = ["\"a\"", "'a'..'z'", "ANY", "r1", "(\"a\" | \"b\")"];
+    let strat = (0..OPERANDS.len(), proptest::collection::vec(0..POSTFIX.len(), 1..20), any::<bool>(), any::<bool>()).prop_map(|(o, ops, parens, in_seq)| {
+        let mut e = OPERANDS[o].to_string();
+        for k in &ops {
+            e = if parens { format!("({e}){}", POSTFIX[*k]) } else { format!("{e}{}", POSTFIX[*k]) };
+        }
+        if in_seq {
+            e = format!("\"x\" ~ {e} ~ \"y\"");
+        }
+        format!("r0 = {{ {e} }}\nr1 = {{ \"b\" }}\n")
+    });
+    ctx.run_prop(n / 128, 7, strat, |ctx, t| check_text(ctx, t, "postfix-tower"));
+    lap(ctx, "postfix-tower");
 }
 
 /// Unterminated or half-open constructs; stream (d) repeats one or two of them many times.
-pub const FRAGMENTS: [&str; 28] = [
-    "/* ", "/*x", "/*/ ", "(", "[", "{", "\"", "'", "PUSH(", "PEEK[", "PEEK[1..", "r = {", "r = { (", "a ~ ", "a | ", "!", "&", "#t = ", "\"\\", "\"\\u{", "'\\", "^\"", "a{", "a{1,", "//", "///", "//!", "_{",
+pub const FRAGMENTS: [&str; 30] = [
+    "+", "a+", "/* ", "/*x", "/*/ ", "(", "[", "{", "\"", "'", "PUSH(", "PEEK[", "PEEK[1..", "r = {", "r = { (", "a ~ ", "a | ", "!", "&", "#t = ", "\"\\", "\"\\u{", "'\\", "^\"", "a{", "a{1,", "//", "///", "//!", "_{",
 ];
 
 pub fn replay(case: &Value) -> Result<(), Fail> {
@@ -496,7 +595,7 @@ pub fn replay(case: &Value) -> Result<(), Fail> {
 
 pub const DEF: CheckDef = CheckDef {
     id: "C09",
-    rule: "Texts, not grammars: (a1) chunks of the repository's .pest files mutated at token level (delete/duplicate/swap/replace/insert from a dictionary of meta-grammar tokens incl. out-of-range numbers, malformed and out-of-range escapes, lone quotes, non-ASCII; truncation at a token or inside one; numbers replaced by 0 / 2^31 +- 1 / 2^32 +- 1 / 2^64) and every byte-truncation of the small chunks; (a2) the same mutations of canonical printings of generated valid grammars; (b) random token soup over that dictionary with random gaps/comments; (c) the same soup wrapped as `r0 = { ... }`; (d) one or two unterminated constructs (comment/paren/bracket/string/PUSH/PEEK/repetition openers, dangling operators) repeated 1..60 times; (e) reference lattices: 1..28 rules r_i = { shape(r_(i+1), r_(i+1 or i+2)) } over ten shapes (choice, sequence, predicates, optionals, repetitions, PUSH) and six leaves. Stated bounds: text <= 4 KiB, bracket nesting <= 200, product of the in-range numbers inside {..} suffixes <= 4096 and that product x text length <= 256 KiB (the unroller copies the repeated expression; larger cases are filtered before the call and counted under excluded_by_construction). Oracle: (time) the syntactic parse stays within 200*(len+16) combinator calls, enforced with pest's own call limit, and a text over budget is attributed by re-running it with every `/*` blanked, and the validator's recursive analyses stay within 150*(len+16) steps (cfg hook with a step limit); (totality) parse_and_optimize and generator::docs::consume return under catch_unwind (worker survival = no abort); on Err the list is non-empty, every location lies in 0..=len on char boundaries with start <= end, Display and renamed_rules(rename_meta_rule) render; on Ok Display of every optimized expression renders. Non-trivial = the text gets past the meta parser (reaches consumption/validation) or its first error lies within 12 bytes of the end; distinct = distinct text.",
+    rule: "Texts, not grammars: (a1) chunks of the repository's .pest files mutated at token level (delete/duplicate/swap/replace/insert from a dictionary of meta-grammar tokens incl. out-of-range numbers, malformed and out-of-range escapes, lone quotes, non-ASCII; truncation at a token or inside one; numbers replaced by 0 / 2^31 +- 1 / 2^32 +- 1 / 2^64) and every byte-truncation of the small chunks; (a2) the same mutations of canonical printings of generated valid grammars; (b) random token soup over that dictionary with random gaps/comments; (c) the same soup wrapped as `r0 = { ... }`; (d) one or two unterminated constructs (comment/paren/bracket/string/PUSH/PEEK/repetition openers, dangling operators) repeated 1..60 times; (e) reference lattices: 1..28 rules r_i = { shape(r_(i+1), r_(i+1 or i+2)) } over ten shapes (choice, sequence, predicates, optionals, repetitions, PUSH) and six leaves; (f) postfix towers: one operand under 1..20 stacked postfix operators (+ * ? {n} {n,m} {,m} {n,}), flat or parenthesised. Stated bounds: text <= 4 KiB, bracket nesting <= 200, along the deepest chain of nested postfix operators the product of the in-range repetition counts <= 128 and that product x text length <= 64 KiB (the unroller copies the repeated expression, and the restorer pass is cubic in a count applied to a self-referential expression: 800 -> 260 s), and at most 14 stacked `+` (finding D23); larger cases are filtered before the call and counted under excluded_by_construction. Oracle: (time) the syntactic parse stays within 200*(len+16) combinator calls, enforced with pest's own call limit, and a text over budget is attributed by re-running it with every `/*` blanked, the validator's recursive analyses stay within 150*(len+16) steps (cfg hook with a step limit), and the optimized rules render to at most 64*(len+16)*counts bytes; (totality) parse_and_optimize and generator::docs::consume return under catch_unwind (worker survival = no abort); on Err the list is non-empty, every location lies in 0..=len on char boundaries with start <= end, Display and renamed_rules(rename_meta_rule) render; on Ok Display of every optimized expression renders. Non-trivial = the text gets past the meta parser (reaches consumption/validation) or its first error lies within 12 bytes of the end; distinct = distinct text.",
     assumptions: &["'bounded time' is read as a linear budget of combinator calls for the meta parser (200 per byte; largest ratio measured on texts without the known blow-up: 28); validation and optimisation time is bounded by the stated size bounds only, and a watchdog kill there is reported as inconclusive (exit 2), never as a violation"],
     floor: |t| t.pick(50_000, 500_000),
     shards: |_| 16,
